@@ -1,0 +1,9 @@
+//go:build !verif
+
+package nject
+
+// No-op counterparts of the verification hooks in verif_on.go (build tag "verif").
+
+func verifObserveBind(bool, []*provider, int, map[typeCode]int, map[typeCode]int) {}
+
+func verifYield(string) {}
